@@ -140,7 +140,7 @@ func component(acc string) string {
 		return "host"
 	case a == "Cookies", a == "Bind.Cookie", strings.HasPrefix(a, "Redirect."):
 		return "cookie"
-	case a == "Get", a == "GetReqHeader[string]", a == "GetReqHeaders", a == "Bind.Header", a == "Scheme", a == "Range.Type", a == "IP", a == "IPs":
+	case a == "Get", a == "GetReqHeader[string]", a == "GetReqHeader[[]byte]", a == "GetReqHeaders", a == "Bind.Header", a == "Scheme", a == "Range.Type", a == "IP", a == "IPs":
 		return "header"
 	case a == "Body", a == "BodyRaw", a == "FormValue", strings.HasPrefix(a, "MultipartForm"), a == "FormFile.Filename",
 		a == "Bind.Form", a == "Bind.JSON", a == "Bind.XML", a == "Bind.CBOR", a == "Bind.Body":
